@@ -15,7 +15,7 @@ set_option linter.unusedSimpArgs false
 set_option linter.unusedVariables false
 set_option linter.unusedSectionVars false
 
-namespace AurelVerif.C05
+namespace AurelVerif.C05L
 open AurelVerif.Gen.Core AurelVerif.Tensor AurelVerif.CoreTac AurelVerif.C08 AurelVerif.Spec.Covd
 
 variable {K : Type} [Field K]
@@ -131,4 +131,4 @@ theorem lie_of_metric (e : Env K) (h : MetricOK e) (h2 : (2 : K) ≠ 0)
   field_simp
   ring
 
-end AurelVerif.C05
+end AurelVerif.C05L
